@@ -1183,7 +1183,10 @@ RunResult execute_plan(const Plan &plan, const ExecOptions &opt, PacketStore *ca
     RunResult res = std::move(ex->res);
     ex.reset();
     if (opt.check_indep && opt.solo_session < 0) {
-        // O-INDEP (C12): every session's projection of the plan, executed alone, must be observed identically
+        // O-INDEP (C12): every session's projection of the plan, executed alone, must be observed identically. A cold-start
+        // run (first use of a codec happens inside the run) is compared with solo replays in a process that HAS used the
+        // codecs before: "works only after some other session ran" is a dependence on other sessions too.
+        if (plan.cold) shim_warm_rs();
         for (auto &ss : res.sessions) {
             ExecOptions so = opt;
             so.solo_session = ss.id; so.packets = cap; so.check_indep = false; so.trace = false;
